@@ -338,13 +338,21 @@ class Inst:
 
   def _bind(self, child, p, dims, e, into_child):
     if dims:
-      if e[0] != "id" or self.vars.get(e[1], (None, [], None))[1] != list(dims):
+      n, fi, lo, w, t = self.resolve(e, {})
+      pdims = self.vars.get(n, (None, [], None))[1] if n != "$loc" else []
+      pre = fi if isinstance(fi, list) else None
+      if pre is None or list(pdims[len(pre):]) != list(dims):
         raise Unsupported(f"array port {p} bound to {e}")
-      src, dst = (self.val[e[1]], child.val[p]) if into_child else (child.val[p], self.val[e[1]])
-      for i, v in enumerate(src):
-        if dst[i] != v:
-          dst[i] = v
-          (child if into_child else self).dirty = True
+      base, cnt = 0, 1
+      for d, x in zip(pdims, pre): base = base * d + x
+      for d in dims: cnt *= d
+      base *= cnt
+      pv, cv = self.val[n], child.val[p]
+      for i in range(cnt):
+        if into_child:
+          if cv[i] != pv[base + i]: cv[i] = pv[base + i]; child.dirty = True
+        else:
+          if pv[base + i] != cv[i]: pv[base + i] = cv[i]; self.dirty = True
       return
     if into_child:
       w = child.d.twidth(child.vars[p][0])
@@ -455,6 +463,12 @@ def drivers(design, modname):
       elif k == "mem":
         flo, ft = design.field(cur, sel[2])
         lo, w, cur = lo + flo, design.twidth(ft), ft
+    if 0 < len(consumed) < len(dims) and all(x is not None for x in consumed):
+      # a sub-array of an unpacked array (e.g. the port array of one element of a component array)
+      pre, rest = 0, 1
+      for d, x in zip(dims, consumed): pre = pre * d + x
+      for d in dims[len(consumed):]: rest *= d
+      elems = list(range(pre * rest, (pre + 1) * rest)) if all(0 <= x < d for d, x in zip(dims, consumed)) else []
     return name, elems, lo, w
   def stmt_targets(st, out):
     k = st[0]
